@@ -263,12 +263,17 @@ class Bits:
         be truncated with '...'.
 
         """
+        return self._str(MAX_CHARS)
+
+    def _str(self, max_chars: Optional[int]) -> str:
+        """The string representation, truncated if it's more than max_chars hex characters. Use None for no truncation."""
         length = len(self)
         if not length:
             return ''
-        if length > MAX_CHARS * 4:
+        # The pieces are taken with MSB0 positions as the representation doesn't depend on the bit numbering mode.
+        if max_chars is not None and length > max_chars * 4:
             # Too long for hex. Truncate...
-            return ''.join(('0x', self[0:MAX_CHARS*4]._gethex(), '...'))
+            return ''.join(('0x', self._absolute_slice(0, max_chars * 4)._gethex(), '...'))
         # If it's quite short and we can't do hex then use bin
         if length < 32 and length % 4 != 0:
             return '0b' + self.bin
@@ -278,8 +283,8 @@ class Bits:
         # Otherwise first we do as much as we can in hex
         # then add on 1, 2 or 3 bits on at the end
         bits_at_end = length % 4
-        return ''.join(('0x', self[0:length - bits_at_end]._gethex(),
-                        ', ', '0b', self[length - bits_at_end:]._getbin()))
+        return ''.join(('0x', self._absolute_slice(0, length - bits_at_end)._gethex(),
+                        ', ', '0b', self._absolute_slice(length - bits_at_end, length)._getbin()))
 
     def _repr(self, classname: str, length: int, pos: int):
         pos_string = f', pos={pos}' if pos else ''
